@@ -13,10 +13,27 @@ import vrunner
 
 CANARY = '''
 //@ob id={unit}:canary_must_fail props={props} kind=canary
+#[verifier::rlimit(3)]
 proof fn canary_must_fail()
     ensures false
 {{
+}}
+'''
+# the consistency of the whole M0 axiom group is a property of contracts/shim_m0.vrs alone: it has its own small unit
+# (`canary_m0`).  Using the group inside the canary of every file put its axioms into the solver context of every lemma
+# of that file; one behaviour-preserving change of /repo then sent a non-linear lemma of lemmas_m1_f64 into divergence.
+CANARY_M0 = '''
+//@ob id=canary_m0:canary_m0_group_must_fail props={props} kind=canary
+#[verifier::rlimit(3)]
+proof fn canary_m0_group_must_fail(a: AmountT, b: AmountT, c: AmountT)
+    ensures false
+{{
     broadcast use m0_axioms;
+    assert(a_eq(a, b) == a_eq(b, a));
+    assert(a_mul(a, AMNT_ONE) == a);
+    assert(a_div(a_mul(a, b), AMNT_ONE) == a_mul(b, a));
+    assert(a_cmp(a, b) == rev(a_cmp(b, a)));
+    assert(a_add(a, c) == a_add(c, a));
 }}
 '''
 
@@ -26,6 +43,13 @@ ALL_PROPS = 'C01,C02,C03,C04,C05,C07,C08,C09,C10,C13,C14,C16,C18'
 def add_canary(text, unit):
     i = text.rindex('} // verus!')
     return text[:i] + CANARY.format(unit=unit, props=ALL_PROPS) + text[i:]
+
+
+def gen_canary_m0():
+    em = gen_verus.Emitter('canary_m0', gen_verus.Contracts('generic.toml'))
+    text = gen_verus.wrap(em.render('shim_m0.vrs', gen_verus.F64_SUBST))
+    i = text.rindex('} // verus!')
+    return text[:i] + CANARY_M0.format(props=ALL_PROPS) + text[i:], em
 
 
 def verus_unit(name, builder, canary=True):
@@ -39,12 +63,37 @@ def verus_unit(name, builder, canary=True):
                     'failures': [], 'undecided': [], 'records': [], 'scan': {}}
         if canary:
             text = add_canary(text, name)
-        res = vrunner.run_verus(name, text)
+        # a function the front end rejects (construct outside Verus' subset) is demoted - contract assumed, obligation
+        # undecided - and the file is verified again, so that one such function does not take the whole unit with it
+        demoted = {}
+        for _ in range(5):
+            res = vrunner.run_verus(name, text)
+            ids = []
+            for u in res.get('undecided', []):
+                if u.get('frontend') and u.get('obligation') and u.get('ob_kind') in ('exec', 'context') and u['obligation'] not in demoted and u['obligation'] not in ids:
+                    ids.append(u['obligation'])
+            if not ids:
+                break
+            changed = False
+            for ob in ids:
+                t2 = vrunner.demote(text, ob)
+                if t2 is not None:
+                    reason = next(u['reason'] for u in res['undecided'] if u.get('obligation') == ob)
+                    props_of = next((o['props'] for o in res.get('obligations', []) if o['id'] == ob), [])
+                    demoted[ob] = {'obligation': ob, 'props': props_of, 'reason': f'{ob} is outside the verifier\'s reach and was demoted to an assumed contract: {reason}'[:600]}
+                    text = t2
+                    changed = True
+            if not changed:
+                break
+        for o in res.get('obligations', []):
+            if o['kind'] == 'demoted' and o['id'] not in demoted:     # demoted by the generator (shape not recognised)
+                demoted[o['id']] = {'obligation': o['id'], 'props': o['props'],
+                                    'reason': f'{o["id"]} could not be brought into the verifier\'s reach and stands as an assumed contract ({o.get("note")})'}
         out = {
             'engine': 'verus', 'name': name, 'cmd': res.get('cmd', ''), 'cached': res.get('cached', False),
             'wall_s': res.get('wall_s', 0), 'solver_s': round(res.get('smt_ms', 0) / 1000.0, 3),
             'obligations': res.get('obligations', []), 'failures': res.get('failures', []),
-            'undecided': res.get('undecided', []), 'records': em.records if em else [],
+            'undecided': list(res.get('undecided', [])) + list(demoted.values()), 'records': em.records if em else [],
             'scan': scan(text), 'verus_verified': res.get('verified'), 'verus_errors': res.get('errors'),
         }
         return out
@@ -67,6 +116,7 @@ def register(name, fn):
     UNITS[name] = fn
 
 
+register('canary_m0', verus_unit('canary_m0', gen_canary_m0, canary=False))
 register('gen_quantity', verus_unit('gen_quantity', gen_verus.gen_quantity))
 register('gen_hasref', verus_unit('gen_hasref', gen_verus.gen_hasref))
 register('lemmas_m1_f64', verus_unit('lemmas_m1_f64', gen_verus.gen_m1_f64))
